@@ -155,3 +155,46 @@ def drain {α} (R : Rd α) (dest : Nat → Nat) : Nat → Nat → R.σ → List 
     | .more => r.2.1 ++ drain R dest fuel (i + 1) r.1
 
 end BS.Reader
+
+/-! ## sliceio.Scanner (sliceio/scanner.go:50-96)
+
+A scanner hands out one row per `Scan` from an internal buffer of `c` rows (`defaultChunksize`) that it refills from its
+reader when empty — looping over reads that return no rows — and reports the end once the reader has ended and the buffer
+is used up. -/
+namespace BS.Reader
+
+structure ScanS (σ α : Type) where
+  up : σ
+  buf : List α
+  atEOF : Bool
+
+/-- the refill loop: read until rows arrive or the stream ends; returns (upstream, rows, ended) -/
+def scanFill {α} (U : Rd α) (c : Nat) : Nat → U.σ → U.σ × List α × Bool
+  | 0, s => (s, [], false)
+  | fuel+1, s =>
+    let r := U.read s c
+    if r.2.2 = .eof then (r.1, r.2.1, true)
+    else if r.2.1.isEmpty then scanFill U c fuel r.1
+    else (r.1, r.2.1, false)
+
+/-- one `Scan`: the next row, or `none` at the end -/
+def scan {α} (U : Rd α) (c : Nat) (fuelOf : U.σ → Nat) (s : ScanS U.σ α) : ScanS U.σ α × Option α :=
+  match s.buf with
+  | x :: rest => ({ s with buf := rest }, some x)
+  | [] =>
+    if s.atEOF then (s, none)
+    else
+      let r := scanFill U c (fuelOf s.up) s.up
+      match r.2.1 with
+      | x :: rest => (⟨r.1, rest, r.2.2⟩, some x)
+      | [] => (⟨r.1, [], r.2.2⟩, none)
+
+/-- `for sc.Scan(…) { … }` -/
+def scanAll {α} (U : Rd α) (c : Nat) (fuelOf : U.σ → Nat) : Nat → ScanS U.σ α → List α
+  | 0, _ => []
+  | n+1, s =>
+    match scan U c fuelOf s with
+    | (s', some x) => x :: scanAll U c fuelOf n s'
+    | (_, none) => []
+
+end BS.Reader
